@@ -28,7 +28,7 @@ Consume == /\ l <= Len(TraceOf)
            /\ last'.sid = Evt.sid
            /\ (Evt.e = "Exit" => last'.taken = Evt.taken)
            \* number of INSERT executions of the query (scan-order independent unless a BREAK cuts a scan short)
-           /\ (Evt.e = "Query" /\ ~HasBreak(S.op)) => last'.att = Evt.att
+           /\ (Evt.e = "Query" /\ Evt.att >= 0 /\ ~HasBreak(S.op)) => last'.att = Evt.att      \* generated code logs att = -1
            /\ SizesMatch(db', Evt.sz)
            /\ l' = l + 1
 \* the whole trace was consumed and the machine has terminated as well
